@@ -110,12 +110,21 @@ ConcatOp(ps, ax) ==
 OtherClass(c) == CASE c = "Signal" -> "RadioSignal" [] c = "RadioSignal" -> "IntensitySignal"
                    [] c = "IntensitySignal" -> "RadioSignal" [] c = "FullStokesSignal" -> "IntensitySignal"
                    [] c = "BasebandSignal" -> "RadioSignal" [] c = "DualPolarizationSignal" -> "BasebandSignal"
+\* declarative: the start times present are consistent with the pieces being
+\* contiguous in the given order (independent of the TimeLoop transcription)
+RECURSIVE OffsetOf(_, _)
+OffsetOf(ps, i) == IF i = 1 THEN 0 ELSE OffsetOf(ps, i - 1) + ps[i - 1].sig.len
+TimeConsistent(ps) ==
+  \A i, j \in {k \in 1..Len(ps) : ps[k].sig.hasT} :
+     ps[j].sig.t0 - ps[i].sig.t0 = (OffsetOf(ps, j) - OffsetOf(ps, i)) * ps[1].sig.per
 CanPerturb(ps, ax, k, i) ==
   LET s == ps[i].sig
   IN CASE k \in {"shift+1", "shift-1"} ->
-            ax = "time" /\ i > 1 /\ (\A j \in 1..Len(ps) : ps[j].sig.hasT) /\ ps[1].sig.per > 0
+            \* a one-sample gap / overlap is knowable iff some other piece also has a start time
+            ax = "time" /\ s.hasT /\ (\E j \in 1..Len(ps) : j # i /\ ps[j].sig.hasT)
        [] k = "swap" -> i < Len(ps) /\
-            (IF ax = "time" THEN (\A j \in 1..Len(ps) : ps[j].sig.hasT) /\ s.len > 0 /\ ps[i + 1].sig.len > 0
+            (IF ax = "time"
+             THEN ~TimeConsistent([ps EXCEPT ![i] = ps[i + 1], ![i + 1] = ps[i]])
              ELSE TRUE)
        [] k \in {"rate2", "ratefine"} -> Len(ps) > 1
        [] k = "cls" -> Len(ps) > 1 /\ (ax = "time" \/ IsRadio(OtherClass(s.cls))) /\ s.cls # "Signal"
@@ -190,6 +199,10 @@ SplitConcatIdentity ==
      /\ res.sig.hasT = (\E i \in 1..Len(pieces) : pieces[i].sig.hasT)
      /\ (res.sig.hasT => res.sig.t0 = root.t0)
      /\ (IsRadio(root.cls) => LabelsOf(res.sig) = LabelsOf(root) /\ res.sig.cbw = root.cbw)
+\* the time loop accepts exactly the consistent arrangements
+LoopIsConsistency ==
+  (Done /\ axis = "time" /\ pert[1] \in {"none", "shift+1", "shift-1", "swap"}) =>
+     (TimeLoop(pieces, 1, 0, FALSE, 0)[1] <=> TimeConsistent(pieces))
 \* every perturbation is refused
 RejectsBad == (Done /\ pert[1] # "none") => IsErr(res)
 
